@@ -46,6 +46,15 @@ def input_iter(src):
     return t == ("param", 1), views
 
 
+def _views_of(t):
+    out = []
+    t = peel(t)
+    while t[0] == "call" and t[2]:
+        out.append(t[1].split("::")[-1])
+        t = peel(t[2][0])
+    return out
+
+
 def iter_vec_key(t):
     """place key of the local vector a plain forward iterator term walks, or None"""
     for _ in range(12):
@@ -57,6 +66,10 @@ def iter_vec_key(t):
             t = t[2][1]
         elif t[0] == "deref":
             t = t[1]
+        elif t[0] == "phi":
+            return "_%d" % t[3]
+        elif t[0] == "escaped":
+            return "_%d" % t[1]
         else:
             return None
     return None
@@ -98,6 +111,29 @@ def run(ctx):
     if one_loop and loops_with[0].source is not None:
         fwd, views = input_iter(loops_with[0].source)
         fwd = fwd and not any(v in ("rev",) for v in views)
+    derived_pos = None
+    if one_loop and not fwd and loops_with[0].source is not None:
+        # the loop may walk a local sequence that holds one record per input element, in input order, each record
+        # carrying the input element itself: an order-preserving image of the input
+        k2 = iter_vec_key(loops_with[0].source)
+        if k2 is not None and k2 != key:
+            rp = pushes_to(ft, k2)
+            rl = [l for l in lps if any(c.block in l.own for c in rp)]
+            if (len(rp) == 1 and len(rl) == 1 and rp[0].callee.endswith("Vec::push") and rl[0].source is not None and input_iter(rl[0].source)[0]
+                    and not any(isinstance(v, tuple) or v in ("rev", "enumerate") for v in input_iter(rl[0].source)[1])
+                    and every_iteration(ft, rl[0], rp[0].block) and not [c for c in mutators_of(ft, k2) if c not in rp]):
+                v = peel(rp[0].args[1])
+                it2 = strip_site(peel(rl[0].item))
+                if strip_site(v) == it2:
+                    derived_pos = ()
+                elif v[0] == "agg" and v[1] == "tuple":
+                    hits = [i for i, o in enumerate(v[3]) if strip_site(peel(o)) == it2]
+                    if len(hits) == 1:
+                        derived_pos = (hits[0],)
+                if derived_pos is not None:
+                    fwd = not any(x in ("rev",) for x in _views_of(loops_with[0].source))
+                    run.inst("C09.U2", "image-sequence-aligned", True,
+                             "the sequence walked by the assembly loop holds one record per input element, pushed in input order, carrying the element itself", w)
     run.inst("C09.U1", "single-forward-loop", one_loop and fwd, "all appends happen in one loop over %s" % (fmt(loops_with[0].source) if loops_with else "?"), w)
     if not (one_loop and fwd):
         return
@@ -107,6 +143,9 @@ def run(ctx):
     zips = [v for v in views if isinstance(v, tuple)]
     elem = ("field", item, 1) if enum else item
     idx = ("field", item, 0) if enum else None
+    if derived_pos is not None:
+        enum, zips, idx = False, [], None
+        elem = ("field", item, derived_pos[0]) if derived_pos else item
     if zips:
         # for (cell, extra) in cells.iter().zip(aux.iter()): the input element is one component of the item, and the
         # companion sequence must hold exactly one record per input element, in input order
